@@ -43,7 +43,11 @@ def _expect(fmt_items, d):
             if mod == "O":
                 return _rom(v)
             return str(v).zfill(w)
-        if sp == "Y":
+        if it == "%db":
+            # the business day of the month; a weekend day has none and prints as 00
+            bd = sum(1 for k in range(1, d.day + 1) if datetime.date(d.year, d.month, k).isoweekday() <= 5)
+            out += ("%02d" % bd if iwd <= 5 else "00") + "b"
+        elif sp == "Y":
             out += num(d.year, 4)
         elif sp == "y":
             out += num(d.year % 100, 2)
@@ -106,6 +110,8 @@ FORMATS = [
     (["%Y", " ", "%U", " ", "%W", " ", "%C", " ", "%Q"], False),
     (["%d", " ", "%j", " ", "%m"], False),
     (["%j", " ", "%d", " ", "%j"], False),
+    (["%OY", " ", "%Om", " ", "%Od", " ", "%Oc"], False),
+    (["%F", " ", "%db"], False),
 ]
 _G = {}
 
@@ -221,20 +227,26 @@ def _worker(ys):
                     fo._tabs = tabs
                     r0 = fo.run([{"y": d.year, "m": d.month, "d": d.day}])
                     other = {"typ": E2[tag], mem: r0} if not isinstance(r0, dict) else {"typ": E2[tag], **{mem + "." + k: v for k, v in r0.items()}}
-                    for items, back in FORMATS:
-                        fmt = "".join(items)
-                        buf = [0] * 96
-                        fo = fold.Folder(ff, calls=calls, inline=True, max_steps=3000000)
-                        fo._tabs = tabs
-                        try:
-                            r = fo.run([CPtr(buf, 0), 96, cstr(fmt), dict(other)])
-                        except fold.Abort as e:
-                            bad.setdefault(fmt, []).append((d.isoformat(), "print held as %s" % tag, "abort: %s" % e, ""))
-                            continue
-                        text = bytes(buf[:r]).decode("latin-1") if isinstance(r, int) and 0 <= r <= 96 else None
-                        n += 1
-                        if text != _expect(items, d):
-                            bad.setdefault(fmt, []).append((d.isoformat(), "print held as %s" % tag, repr(text), repr(_expect(items, d))))
+                    variants = [(other, FORMATS, tag)]
+                    if tag == "DT_YMCW" and isinstance(r0, dict) and r0.get("w") == 7:
+                        # Sunday may be spelt 0 in this representation (the parser hands `2012-09-02-00` on like that): the names are Sunday's
+                        variants.append((dict(other, **{mem + ".w": 0}), [f_ for f_ in FORMATS if any(i_ in ("%a", "%A") for i_ in f_[0]) and "%w" not in f_[0]],
+                                         "DT_YMCW with Sunday spelt 0"))
+                    for other, fmts, tag in variants:
+                      for items, back in fmts:
+                          fmt = "".join(items)
+                          buf = [0] * 96
+                          fo = fold.Folder(ff, calls=calls, inline=True, max_steps=3000000)
+                          fo._tabs = tabs
+                          try:
+                              r = fo.run([CPtr(buf, 0), 96, cstr(fmt), dict(other)])
+                          except fold.Abort as e:
+                              bad.setdefault(fmt, []).append((d.isoformat(), "print held as %s" % tag, "abort: %s" % e, ""))
+                              continue
+                          text = bytes(buf[:r]).decode("latin-1") if isinstance(r, int) and 0 <= r <= 96 else None
+                          n += 1
+                          if text != _expect(items, d):
+                              bad.setdefault(fmt, []).append((d.isoformat(), "print held as %s" % tag, repr(text), repr(_expect(items, d))))
             for items, back in (FORMATS if _G["parse"] else []):
                 fmt = "".join(items)
                 buf = [0] * 96
